@@ -235,6 +235,17 @@ fn judge_order(vals: &[Confidence], s: &mut Sink) {
 
 fn order_values() -> Vec<Confidence> {
     let levels = [5e-324, 0.001, 0.25, 0.5, 0.5000000000000001, 0.9, 0.95, 0.9500000000000001, 0.975, 0.99, 0.9999, 1.0 - 2.0_f64.powi(-53)];
+    let mut levels: Vec<f64> = levels.to_vec();
+    // every grid level with its 1..3-ulp neighbours on both sides: levels that differ must be
+    // ordered, however close (a comparison through a rounded transform of the level merges some)
+    for &l in mc::LG.iter() {
+        for k in 0..=3u64 {
+            levels.push(f64::from_bits(l.to_bits() + k));
+            levels.push(f64::from_bits(l.to_bits() - k));
+        }
+    }
+    levels.sort_by(|a, b| a.partial_cmp(b).unwrap());
+    levels.dedup();
     let mut v = vec![];
     for l in levels {
         // variants directly: the constructors are judged separately (judge_ctor)
